@@ -185,6 +185,45 @@ def frame_work(ctx, acc):
                                             expected={"child_errors": base, "membership": verdict}, observed=got, rule=ctx.rule))
     p.content = base_content
     p.attributes = dict(base_attrs)
+    # validate - rearrange in place - validate: the verdict is that of the sequence as it is now.  The rearrangements keep
+    # the number of children: a hard shift of one child, a child renamed where it stands, two list items exchanged.
+    from metapype.model.node import Shift
+
+    def verdict_now(case):
+        seq_now = tuple(c.name for c in p.children)
+        want = ra.verdict(seq_now)
+        try:
+            got = child_codes()
+        except Exception as e:  # noqa
+            acc.add_problem(problem("collecting_raised", case, expected="no exception", observed=repr(e), rule=ctx.rule,
+                                    mode="collecting", exc=type(e).__name__))
+            return
+        if (want == "accept" and got) or (want == "reject" and not got):
+            acc.add_problem(problem("verdict_is_of_an_earlier_child_sequence", dict(case, seq_now=list(seq_now)),
+                                    expected=want, observed=got, rule=ctx.rule))
+    fresh = {a: Node(a, id="d_" + a) for a in ra.alphabet}
+    for seq in words:
+        if len(seq) < 2 or len(set(seq)) < 2:
+            continue
+        for how in ("shift", "rename", "swap"):
+            kids = [Node(a, id=f"e{i}") for i, a in enumerate(seq)]
+            p.children = []
+            for k_ in kids:
+                p.add_child(k_)
+            case = {"rule": ctx.rule, "seq": list(seq), "rearranged_by": how}
+            try:
+                child_codes()
+            except Exception:  # noqa
+                continue
+            n += 1
+            if how == "shift":
+                p.shift(kids[0], Shift.RIGHT, False)
+            elif how == "rename":
+                kids[0].name, kids[-1].name = kids[-1].name, kids[0].name
+            else:
+                p.children[0], p.children[-1] = p.children[-1], p.children[0]
+            verdict_now(case)
+    p.children = []
     acc.count("frame_cases", n)
 
 
@@ -258,7 +297,8 @@ def _work_body(kind, param, ra, feed):
 PUMP_COUNTS = (9, 100, 255, 256, 257, 258, 1000)
 
 
-def pump_words(ra):
+def pump_words(ra, counts=None):
+    counts = counts or PUMP_COUNTS
     d = ra.strict
     cover = d.state_cover()
     out = []
@@ -282,7 +322,7 @@ def pump_words(ra):
     for s0, access in cover.items():
         for a in d.alphabet:
             if d.trans[s0][a] == s0 and a != e2.FOREIGN:
-                for n in PUMP_COUNTS:
+                for n in counts:
                     tails = [comp.get(s0, ())]
                     if comp.get(s0) is not None:
                         tails.append(comp[s0] + (e2.FOREIGN,))          # a rejected long word
@@ -343,7 +383,7 @@ def plan(tier):
 
 def replay(case):
     ctx = Ctx(case["rule"])
-    if "parent_content" in case:
+    if "parent_content" in case or "rearranged_by" in case:
         acc = core.Acc()
         frame_work(ctx, acc)
         return [p for ps in acc.problems.values() for p in ps if core.jsonable(p["case"]) == core.jsonable(case)]
